@@ -1,7 +1,9 @@
 """C43 - the DataFrame optimizer preserves results and converges.
 
 Specification (specs/frame/Optimizer.tla): logical programs = a source table, a sequence of steps (project / filter /
-assign / frame-level elementwise / head) whose column expressions may contain reductions, and a final form (frame,
+assign / frame-level elementwise / head / dropna / drop_duplicates / nlargest / nsmallest - the last four select rows by
+looking at columns they need not output) whose column expressions may contain reductions and disjunctions of
+conjunctions with partially shared terms, and a final form (frame,
 column, reduction of a column); DenoteFrame(program) over the tables of FrameAlgebra with the operator definitions of
 FrameOps (C36); the design's rewrite rules as Rewrite(rule, position).  TLC (OptimizerMC.tla) explores, for every
 program of the bounded universe, every rewriting order: each reachable program denotes the original table (Sound),
@@ -40,9 +42,11 @@ META = {
                  "actions; TLC checks on all small programs that every rule application preserves the denotation, that rewriting "
                  "has no cycle (liveness) and that normal forms are fixpoints; the real optimizer's stages are obtained with "
                  "optimize_until, executed, and every executed result is decided by TLC against DenoteFrame",
-    "level_text": "Model checking of the rule set (projection pushdown through filter / assign / elementwise / head, projection "
-                  "fusion and identity, dead-assign elimination, filter pushdown through assign, filter fusion, head pushdown "
-                  "and fusion) over all programs of depth <= 2 (thorough: <= 3, depth 3 thinned) from a menu of 30 steps x 8 "
+    "level_text": "Model checking of the rule set (projection pushdown through filter / assign / elementwise / head and - only "
+                  "together with the columns they inspect - through dropna / drop_duplicates / nlargest / nsmallest, projection "
+                  "fusion and identity, dead-assign elimination, filter pushdown through assign, filter fusion, factoring of "
+                  "common AND-terms out of OR predicates, head pushdown and fusion) over programs of depth <= 2 (quick: depth 2 "
+                  "thinned; thorough: <= 3, depth 3 thinned) from a menu of 43 steps x 8 "
                   "final forms on a 3-column 4-row frame: soundness invariant in every reachable state, convergence as a "
                   "liveness property, normal-form fixpoints. Conformance: TLC-enumerated programs and seeded larger DAG-shaped "
                   "programs are run through the REAL optimizer stage by stage (logical, simplified-logical, tuned-logical, "
@@ -122,6 +126,13 @@ def run_program(F, steps, fin, lazy, guard=False):
             F = (F + st["v"]) if st["f"] == "addc" else F.fillna(st["v"])
         elif k == "head":
             F = F.head(st["n"], npartitions=-1, compute=False) if lazy else F.head(st["n"])
+        elif k == "dropna":
+            kw = {"subset": list(st["sub"])} if st["sub"] else {}
+            F = F.dropna(thresh=st["th"], **kw) if st["th"] != NA else F.dropna(how=st["how"], **kw)
+        elif k == "dropdup":
+            F = F.drop_duplicates(subset=list(st["sub"]) or None, keep=st["keep"])
+        elif k == "ntop":
+            F = F.nlargest(st["n"], st["c"]) if st["big"] else F.nsmallest(st["n"], st["c"])
         else:
             raise MachineryError("unknown step %r" % (st,))
         g(F)
@@ -256,9 +267,13 @@ def shape_of(case):
     toks, cols = [], set(case["src"]["cols"])
     for st in case["steps"]:
         k = st["k"]
-        t = {"project": "P", "filter": "F", "assign": "A", "fmap": "E", "head": "H"}[k]
+        t = {"project": "P", "filter": "F", "assign": "A", "fmap": "E", "head": "H", "dropna": "N", "dropdup": "D", "ntop": "T"}[k]
+        if k in ("dropna", "dropdup") and not st["sub"]:
+            t += "w"                                       # looks at whole rows
         if k == "filter" and "red" in expr_feats(st["p"], set()):
             t += "r"
+        if k == "filter" and st["p"].get("e") == "bin" and st["p"].get("f") == "or":
+            t += "o"
         if k == "assign":
             if "red" in expr_feats(st["x"], set()):
                 t += "r"
@@ -287,6 +302,11 @@ def classify(case, stages_bad, obs=None):
     # expressions keep referring to the old ones by name
     if what == "raises" and first == "r2" and o.get("msg", "").startswith("Missing dependency"):
         return "reoptimize-fused:dependencies-rewritten-under-fused-node"
+    # Reduction._simplify_up pushes a projection below nlargest / nsmallest WITHOUT the column they order by
+    msg = o.get("msg", "")
+    if what == "raises" and any(st["k"] == "ntop" for st in case["steps"]) and \
+            (o.get("raised") == "KeyError" or "nlargest()" in msg or "nsmallest()" in msg):
+        return "projection-below-nlargest-drops-order-column"
     # Assign fusion drops the earlier assignment of a re-assigned column and appends it at the end
     names = [st["name"] for st in case["steps"] if st["k"] == "assign"]
     if what == "wrong-result" and "Cols" in clauses and len(set(names)) < len(names) and obs is not None \
@@ -413,7 +433,58 @@ def rand_expr(rng, cols, depth, boolean):
     return boo(depth) if boolean else ser(depth)
 
 
+ATOMS = [("gt", "a", 1), ("gt", "a", 0), ("lt", "c", 2), ("ge", "c", 1), ("eq", "c", 0), ("le", "b", 1), ("eq", "a", 2), ("ne", "c", 1)]
+
+
+def or_predicate(rng, cols):
+    """Disjunction of 2..4 conjunctions over a small pool of atomic comparisons with CONTROLLED SHARING of AND-terms:
+    a term shared by all clauses, by some clauses only (the others can be satisfied without it), or by none."""
+    pool = [{"e": "bin", "f": f, "l": {"e": "col", "c": c}, "r": {"e": "const", "v": v}} for f, c, v in ATOMS if c in cols]
+    if "b" in cols:
+        pool.append({"e": "notna", "x": {"e": "col", "c": "b"}})
+    if len(pool) < 3:
+        return None
+    rng.shuffle(pool)
+    nclauses = rng.randint(2, 4)
+    sharing = rng.choice(["all", "some", "some", "none"])
+    shared, others = pool[0], pool[1:]
+    clauses = []
+    for j in range(nclauses):
+        terms = [rng.choice(others)]
+        if rng.random() < 0.3:
+            terms.append(rng.choice(others))
+        has = sharing == "all" or (sharing == "some" and (j == 0 or (j < nclauses - 1 and rng.random() < 0.7)))
+        if has:
+            terms.insert(rng.randint(0, len(terms)) if j else 0, shared)     # the first clause leads with the shared term
+        x = terms[0]
+        for q in terms[1:]:
+            x = {"e": "bin", "f": "and", "l": x, "r": q}
+        clauses.append(x)
+    p = clauses[0]
+    for cl in clauses[1:]:
+        p = {"e": "bin", "f": "or", "l": p, "r": cl}
+    return p
+
+
+def row_selection(rng, cols, after_dropdup):
+    """dropna / drop_duplicates / nlargest / nsmallest: they look at columns they need not output."""
+    kinds = ["dropna", "dropna"] if after_dropdup else ["dropna", "dropdup", "dropdup", "dropdup", "ntop"]
+    k = rng.choice(kinds)
+    sub = [] if rng.random() < 0.5 else rng.sample(cols, rng.randint(1, min(2, len(cols))))
+    if k == "dropna":
+        if rng.random() < 0.3:
+            return {"k": "dropna", "how": "any", "sub": sub, "th": rng.randint(1, max(1, len(sub or cols)))}
+        return {"k": "dropna", "how": rng.choice(["any", "all"]), "sub": sub, "th": NA}
+    if k == "dropdup":
+        return {"k": "dropdup", "sub": sub, "keep": rng.choice(["first", "last"])}
+    return {"k": "ntop", "n": rng.randint(1, 4), "c": rng.choice(cols), "big": rng.random() < 0.5}
+
+
 def random_program(rng):
+    """A seeded program.  Half of the programs are built around the two situations in which a rewrite must look at more
+    than the columns it outputs: a row selection (dropna / drop_duplicates / nlargest ...) followed by projections to
+    one or several columns and further filters, and OR-predicates with partially shared AND-terms placed before and
+    after projections / assigns."""
     n = rng.randint(4, 8)
     a = [rng.randint(0, 3) for _ in range(n)]
     b = [NA if rng.random() < 0.25 else rng.randint(0, 3) for _ in range(n)]
@@ -422,9 +493,22 @@ def random_program(rng):
     src = make_table(a, b, c, kinds)
     cols = ["a", "b", "c"]
     steps = []
+    dedup = False                       # after a drop_duplicates nothing order-dependent may follow (Optimizer!OrderFree)
+    focus = rng.choice(["rowsel", "orpred", "mixed", "mixed"])
     for _ in range(rng.randint(3, 7)):
         r = rng.random()
-        if r < 0.27:
+        if focus == "rowsel" and r < 0.3 or focus == "mixed" and r < 0.08:
+            st = row_selection(rng, cols, dedup)
+            steps.append(st)
+            dedup = dedup or st["k"] == "dropdup"
+            continue
+        if focus == "orpred" and r < 0.35 or focus == "mixed" and 0.08 <= r < 0.14:
+            p = or_predicate(rng, cols)
+            if p is not None:
+                steps.append({"k": "filter", "p": p})
+                continue
+        r = rng.random()
+        if r < 0.3:
             k = rng.randint(1, len(cols))
             sel = rng.sample(cols, k)
             if rng.random() < 0.6:
@@ -440,10 +524,10 @@ def random_program(rng):
                 cols = cols + [name]
         elif r < 0.9:
             steps.append({"k": "fmap", "f": rng.choice(["addc", "fillna"]), "v": rng.randint(0, 1)})
-        else:
+        elif not dedup:
             steps.append({"k": "head", "n": rng.randint(1, 5)})
     r = rng.random()
-    if r < 0.45:
+    if r < 0.4:
         fin = {"k": "frame"}
     elif r < 0.75:
         fin = {"k": "col", "c": rng.choice(cols)}
@@ -477,6 +561,11 @@ def case_of(exported, rng):
 
 
 # ----------------------------------------------------------------------------- run
+def is_focus(steps):
+    return any(st["k"] in ("dropna", "dropdup", "ntop") or
+               (st["k"] == "filter" and st["p"].get("e") == "bin" and st["p"].get("f") == "or") for st in steps)
+
+
 def nontrivial(case):
     return len(case["steps"]) >= 2
 
@@ -485,13 +574,19 @@ def run(ctx):
     dd()
     rng = ctx.rng
     depth = ctx.pick(2, 3)
-    stride = {0: 1, 1: 1, 2: ctx.pick(3, 1), 3: 60}
+    stride = {0: 1, 1: 1, 2: ctx.pick(6, 1), 3: 150}
     progs, r = model_check(ctx, depth, {d: stride[d] for d in range(depth + 1)}, "rule-set model checking + program export")
     ctx.extra["programs_enumerated_by_tlc"] = len(progs)
     ctx.extra["rewrite_states_explored"] = r.distinct
-    nsel = ctx.pick(260, 3500)
-    sel = progs if len(progs) <= nsel else rng.sample(progs, nsel)
-    cases = [case_of(p, rng) for p in sel] + [random_program(rng) for _ in range(ctx.pick(160, 4000))]
+    nsel = ctx.pick(240, 3500)
+    if len(progs) <= nsel:
+        sel = progs
+    else:       # half of the replayed programs hold a row selection that reads columns / an OR-predicate (where a rewrite
+        focus = [p for p in progs if is_focus(p["c"]["steps"])]       # must look at more than the columns it outputs)
+        rest = [p for p in progs if not is_focus(p["c"]["steps"])]
+        take = min(len(focus), nsel // 2)
+        sel = rng.sample(focus, take) + rng.sample(rest, min(len(rest), nsel - take))
+    cases = [case_of(p, rng) for p in sel] + [random_program(rng) for _ in range(ctx.pick(180, 4000))]
     bad, per_case, n_exec = judge_cases(ctx, cases, "stage results vs DenoteFrame")
     ctx.extra["stage_executions"] = n_exec
     for case, obs in zip(cases, per_case):
@@ -541,6 +636,7 @@ def selftest(ctx):
     dd()
     import dask._expr as core
     import dask.dataframe.dask_expr._expr as ex
+    import dask.dataframe.dask_expr._reductions as red
     rng = ctx.rng
     S = MC_SOURCES[0]
     col, k = (lambda c: {"e": "col", "c": c}), (lambda v: {"e": "const", "v": v})
@@ -559,8 +655,17 @@ def selftest(ctx):
         ([H(3), H(2)], frame), ([H(2), H(3)], frame), ([{"k": "fmap", "f": "addc", "v": 1}, H(3), H(1)], colfin("a")),
         ([A("d", bn("add", col("a"), k(1))), F(bn("gt", col("d"), k(1))), P("a", "d")], frame),
         ([F(bn("lt", col("a"), {"e": "red", "op": "max", "x": col("a")})), P("b", "c")], {"k": "red", "op": "sum", "c": "c"}),
+        # a whole-row drop_duplicates / a dropna over all columns followed by a projection to fewer columns
+        ([{"k": "dropdup", "sub": [], "keep": "first"}, P("a")], frame), ([{"k": "dropdup", "sub": [], "keep": "last"}], colfin("a")),
+        ([{"k": "dropdup", "sub": ["a"], "keep": "first"}, P("c")], frame),
+        ([{"k": "dropna", "how": "any", "sub": [], "th": NA}, P("a", "c")], frame),
+        # OR of three conjunctions whose leading AND-term is shared by two of them only; rows satisfy the third alone
+        ([F(bn("or", bn("or", bn("and", bn("gt", col("a"), k(1)), bn("lt", col("c"), k(2))),
+                              bn("and", bn("gt", col("a"), k(1)), {"e": "notna", "x": col("b")})), bn("eq", col("c"), k(2)))), P("a", "c")], frame),
+        ([P("a", "c"), F(bn("or", bn("or", bn("and", bn("gt", col("a"), k(1)), bn("lt", col("c"), k(1))),
+                                       bn("and", bn("gt", col("a"), k(1)), bn("ge", col("c"), k(1)))), bn("eq", col("a"), k(0))))], colfin("c")),
     ]
-    stages = ["sl", "fu", "cm"]
+    stages = ["lc", "sl", "fu", "cm"]        # "lc" (no optimization) is the dtype base of the verdict
     base_cases = [{"src": S, "steps": st, "fin": fin, "variant": {"k": "fp", "n": 2}, "only": stages} for st, fin in hand]
     base_cases += [dict(random_program(rng), only=stages) for _ in range(12)]
     known = set(ctx.known)
@@ -574,6 +679,13 @@ def selftest(ctx):
          [ex.Assign], "_simplify_up", mutate(vars(ex.Assign)["_simplify_up"], "if k in columns:", "if k not in columns:")),
         ("Head._simplify_down: head(head(x, n), m) fused to max(n, m) (boundary)",
          [ex.Head], "_simplify_down", mutate(vars(ex.Head)["_simplify_down"], "min(self.n, self.frame.n)", "max(self.n, self.frame.n)")),
+        ("DropDuplicates._simplify_up: the `subset is not None` guard dropped - a projection is pushed below a WHOLE-ROW "
+         "drop_duplicates()",
+         [red.DropDuplicates], "_simplify_up", mutate(vars(red.DropDuplicates)["_simplify_up"],
+                                                      "if self.subset is not None and isinstance(parent, Projection):", "if isinstance(parent, Projection):")),
+        ("_replace_common_or_components: an AND-term is factored out of an OR predicate when ANY other clause has it (all -> any)",
+         [ex], "_replace_common_or_components", mutate(ex._replace_common_or_components, "if all(c in comp for comp in and_components):",
+                                                       "if any(c in comp for comp in and_components):")),
         ("Expr.simplify: the second simplification pass is reported as a revisit (spurious 'Optimizer does not converge')",
          [core.Expr], "simplify", mutate(vars(core.Expr)["simplify"], "if new._name in seen:", "if len(seen) >= 1:")),
     ]
@@ -609,6 +721,8 @@ def selftest(ctx):
         c = copy.deepcopy(r)
         o = c["obs"]
         kind = j % 4
+        if kind == 2 and any(st["k"] == "dropdup" for st in r["steps"]):
+            kind = 0                          # (rows of a drop_duplicates program are compared as a multiset)
         if kind == 0:
             v = o["rows"][0]["v"][0]
             o["rows"][0]["v"][0] = 0 if v == NA else v + 1
